@@ -79,6 +79,12 @@ class Module:
             self.renames += alpha.normalise(relpath, self.tree)
         if self.canon:
             self.tree = _renumber(self.tree)
+        # shape drift of every function against the reference (statement skeletons, leaves erased)
+        self.drift = {}
+        _ref = alpha.load_ref().get(relpath) or {}
+        for q, fn in alpha.functions_of(self.tree):
+            r = _ref.get(q)
+            self.drift[q] = alpha.drift(fn, r["skeleton"]) if r and "skeleton" in r else None
         self.imports = {}     # local alias -> fully qualified dotted name
         self.functions = {}   # qualname -> FunctionInfo
         self.classes = {}     # name -> ClassInfo
